@@ -444,6 +444,14 @@ func main() {
 			out.put(fmt.Sprintf("eval %s %s %s", meth, encE, encStr(src)), res, verdict("C14", c14), verdict("C08", panicOnly(res)))
 		}
 		out.close()
+	case "tmpl": // <seed> <n> <outdir>
+		seed, _ := strconv.ParseUint(os.Args[2], 10, 64)
+		n, _ := strconv.Atoi(os.Args[3])
+		out := openOut(os.Args[4])
+		for i := 0; i < n; i++ {
+			genTmplCase(NewRng(seed, uint64(i)), out)
+		}
+		out.close()
 	case "code": // <seed> <n> <outdir>
 		seed, _ := strconv.ParseUint(os.Args[2], 10, 64)
 		n, _ := strconv.Atoi(os.Args[3])
